@@ -18,11 +18,14 @@ def _get(results, ref):
 
 
 def equiv_check(prop, tier, seed, jobs, pairs, mcs=None, mc_generated=None, job_timeout=300, level="model_checking",
-                rule_text="", expect_ok=None, extra=None, presupplied=None, merge=False):
+                rule_text="", expect_ok=None, extra=None, presupplied=None, merge=False, mc_states=0):
     """jobs: list of job dicts (equiv.exec_job); pairs: list of dict(a=ref, b=ref, rule=..., cut=..., label=..., scenario=...)
     presupplied: dict jobIndex -> result (e.g. results computed in fresh subprocesses)"""
     t0 = time.time()
     mc = tracebase.run_mc_list(mcs, tier) if mcs else {"states": 0, "distinct": 0, "instances": []}
+    if mc_states:
+        mc["states"] += mc_states
+        mc["instances"].append({"module": "Histories (generated instance, behaviours exported for replay)", "states": mc_states})
     if mc_generated:
         for name, tla, cfg, tmo in mc_generated:
             r = tlc.run_mc_generated(name, tla, cfg, timeout=tmo)
